@@ -99,6 +99,13 @@ const IDIOMS: &[(&str, &str)] = &[
         "=== k@ ===\nNothing yet: {LIST_INVERT(nothing@())} / {LIST_ALL(nothing@())}.\n~ bag@ = nothing@()\nBag {bag@} all {LIST_ALL(bag@)}.\n~ clear@(inv@)\nInv {inv@} inverse {LIST_INVERT(inv@)}.\nStill nothing: {LIST_INVERT(nothing@())}.\n-> NEXT\n=== function nothing@() ===\n~ return ()\n=== function clear@(ref v) ===\n~ v = ()\nGLOB LIST F@ = apple@, banana@\nGLOB LIST T@ = (hammer@), saw@\nGLOB VAR bag@ = (F@.apple@)\nGLOB VAR inv@ = (T@.hammer@)\n",
     ),
     (
+        // two lists, declared in non-alphabetical order, share an item NAME that the story uses
+        // without its list: which list it means is fixed by the program (declaration order),
+        // not by a loader or a hash order
+        "shared_item_name_bare",
+        "=== k@ ===\nBare {both@} is worth {LIST_VALUE(both@)}, then {both@ + 1}.\n~ pick@ = both@\nPicked {pick@} of {LIST_ALL(pick@)}; has {Zed@ ? both@} {Alp@ ? both@}.\n-> NEXT\nGLOB LIST Zed@ = (both@ = 5), zlast@ = 9\nGLOB LIST Alp@ = afirst@ = 1, (both@ = 2), amid@ = 3\nGLOB VAR pick@ = ()\n",
+    ),
+    (
         // two items of ONE list share a value: which item a number stands for must not depend
         // on hash order (list from number, list + n, list - n, ++, --)
         "list_duplicate_values",
